@@ -24,7 +24,7 @@ OUTCOMES_NOT_RUN = {"SKIP", "SKIP_UNCHANGED", "SKIP_PREVIOUS_FAILED", "PERSISTEN
 
 def gen_spec(rng, *, nt=(2, 6), marks=(), behs=("ok",), after_p=0.3, nomods=(1, 3), prodless_p=0.15,
              multi_prod_p=0.25, dens=0.5, user_markers=False, styles=("default", "annotated", "kwargs", "return"),
-             after_needs_prods=False, link_p=0.0, dirprod_p=0.0, hashed_p=0.0):
+             after_needs_prods=False, link_p=0.0, dirprod_p=0.0, hashed_p=0.0, bag_p=0.0, subdir_p=0.0):
     n = rng.randint(*nt)
     nmods = rng.randint(*nomods)
     tasks = []
@@ -84,6 +84,15 @@ def gen_spec(rng, *, nt=(2, 6), marks=(), behs=("ok",), after_p=0.3, nomods=(1, 
         for t in tasks:
             if rng.random() < hashed_p:
                 t["hashed"] = True                                             # constant hashed PythonNode dependency
+    if bag_p:
+        for t in tasks:
+            if t["deps"] and t["beh"] == "ok" and rng.random() < bag_p:
+                k = rng.randint(1, len(t["deps"]))
+                t["bag"] = {"kind": rng.choice(["dict", "list", "tuple"]), "deps": sorted(rng.sample(t["deps"], k))}   # deps inside a container with plain values
+    if subdir_p:
+        sd = {str(m): f"pkg{m}" for m in sorted({t["module"] for t in tasks}) if rng.random() < subdir_p}
+        if sd:
+            spec["subdirs"] = sd                                               # modules in sub-directories with a section-less pyproject.toml
     return spec
 
 
@@ -203,7 +212,8 @@ def run_history(server, hist, ctx=None, keep=False, servers=None):
                 if servers:
                     server = servers[nbuild % len(servers)]
                     nbuild += 1
-                obs = server.build(root, builder.cfg_to_kw(cfg), env=step[2] if len(step) > 2 else None)
+                opts = {"paths": [cfg["sub"]]} if cfg.get("sub") else {}           # build restricted to one sub-directory of the project
+                obs = server.build(root, builder.cfg_to_kw(cfg), env=step[2] if len(step) > 2 else None, **opts)
                 obs["log"] = project.read_log(root)
                 post = project.snapshot_nodes(root, spec)
                 rec.update({"cfg": cfg, "obs": obs, "pre": pre, "post": post, "spec": copy.deepcopy(spec), "hashseed": server.hashseed})
@@ -280,8 +290,18 @@ def replay_in_model(drv, hist, records, sel_eval=None):
             if obs.get("raised") or obs.get("died") or any(p is None for p in picks):
                 out.append((i, "build() raised or unknown task names", obs.get("raised"), None))
                 break
+            outside = []
+            if rec["cfg"].get("sub"):
+                sd = spec.get("subdirs", {})
+                outside = [t for t in spec["tasks"] if sd.get(str(t["module"])) != rec["cfg"]["sub"]]
+                for t in outside:
+                    drv.ask(f"engine.rmtask id={t['id']}")
             # sync the model's view of files with what is on disk before the build (edits were mirrored below)
             ans = drv.ask(f"engine.build {cfg_model_args(rec['cfg'], spec, sel_eval)} picks={','.join(map(str, picks))}")
+            if outside:      # put the tasks that were not collected back (the world is untouched by this)
+                keep = {t["id"] for t in outside}
+                for ln in project.model_lines({**spec, "tasks": [t for t in spec["tasks"] if t["id"] in keep]})[1:]:
+                    drv.ask(ln)
             impl_reports = ",".join(f"{name_to_id(r[0])}:{r[1]}" for r in obs["reports"])
             impl_log = ",".join(x[1] for x in obs["log"] if x[0] == "S")
             nodes = sorted(rec["post"])
